@@ -12,6 +12,8 @@
 #include "hcommon.h"
 #include <memory>
 #include <functional>
+#include <sstream>
+#include <iostream>
 using namespace SimTK;
 
 static Vec3 rvec(vh::Rng& g, double m) { return Vec3(g.range(-m, m), g.range(-m, m), g.range(-m, m)); }
@@ -161,7 +163,19 @@ static int spanCase(vh::Rng& g, int caseNo, bool thorough) {
         out.emit();
         vh::D("span." + algTag + ".items=" + (tag.empty() ? "none" : tag) );
         vh::D("span.contacts=" + std::to_string(std::count(contactTag.begin(), contactTag.end(), 'c')) + ".lifted=" + std::to_string(std::count(contactTag.begin(), contactTag.end(), '-')));
-        const std::string key = "span." + algTag;
+        // a straight segment that arrives at / leaves a contact point against the curve tangent (a 180 degree cusp)
+        double minAlign = 1; std::string cuspAt;
+        { CableSpanObstacleIndex oi(0); int on = 0; size_t pi = 0;   // pathPts: O, then per element two points
+          for (int k : itemKind) { if (k == 1) { const Obst& o = obst[on++];
+                if (cable.isInContactWithObstacle(s, oi)) { Transform XP = cable.calcCurveSegmentInitialFrenetFrame(s, oi), XQ = cable.calcCurveSegmentFinalFrenetFrame(s, oi);
+                    Vec3 din = pathPts[pi + 1] - pathPts[pi], dout = pathPts[pi + 3] - pathPts[pi + 2];
+                    double a1 = ~Vec3(XP.x()) * din / din.norm(), a2 = ~Vec3(XQ.x()) * dout / dout.norm();
+                    if (std::min(a1, a2) < minAlign) { minAlign = std::min(a1, a2); cuspAt = typeName(o.type); }
+                    pi += 2; }
+                ++oi; } else pi += 2; } }
+        const bool cusp = minAlign < 0;
+        if (cusp) { vh::D("span." + algTag + ".cusp@" + cuspAt); if (std::getenv("C45_DEBUG")) std::printf("# dbg cusp align=%g at %s items=%s\n", minAlign, cuspAt.c_str(), tag.c_str()); }
+        const std::string key = cusp ? "span." + algTag + ".cusp@" + cuspAt : "span." + algTag;
         // --- predicates
         // (a) length = sum of straight and curved segment lengths
         double sumLen = 0; for (size_t i = 0; i + 1 < pathPts.size(); i += 2) sumLen += (pathPts[i + 1] - pathPts[i]).norm();
@@ -219,6 +233,18 @@ static int spanCase(vh::Rng& g, int caseNo, bool thorough) {
     }
 }
 
+// The legacy CablePath solver reports its convergence only on std::cout ("***PATH converged in ..", "PATH stalled ..",
+// "==> Backwards geodesic ..") and silently accepts a stalled solve; capture that text around a realize to know whether
+// "the path solver converged" for the state at hand.
+struct CoutCapture {
+    std::ostringstream ss; std::streambuf* old;
+    CoutCapture() : old(std::cout.rdbuf(ss.rdbuf())) {}
+    ~CoutCapture() { std::cout.rdbuf(old); }
+    bool converged() const { const std::string t = ss.str();
+        return t.find("PATH stalled") == std::string::npos && t.find("Backwards geodesic") == std::string::npos
+            && t.rfind("***PATH converged") != std::string::npos; }
+};
+
 // CablePath (CableTrackerSubsystem) + CableSpring
 static int pathCase(vh::Rng& g, bool withSurface) {
     MultibodySystem system; SimbodyMatterSubsystem matter(system); CableTrackerSubsystem cables(system); GeneralForceSubsystem forces(system);
@@ -255,26 +281,27 @@ static int pathCase(vh::Rng& g, bool withSurface) {
     pts.push_back({bT, station(bT, T_G)});
     double k = g.range(10, 200), x0 = g.range(0.5, 1.0) * (T_G - O_G).norm(), c = g.range(0, 0.3);
     CableSpring spring(forces, path, k, x0, c);
-    system.realizeTopology();
+    { CoutCapture cap; system.realizeTopology(); }
     State s = system.getDefaultState();
     for (int b = 1; b <= nB; ++b) mob[b].setQToFitTransform(s, X_GB[b]);
     for (int i = 0; i < s.getNU(); ++i) s.updU()[i] = g.range(-1, 1);
     const std::string key = anySurface ? "path.surface" : "path.via";
     try {
-        system.realize(s, Stage::Position);
+        { CoutCapture cap; system.realize(s, Stage::Position); }
         path.solveForInitialCablePath(s);
         // CablePath re-solves from the previous path (an auto-update state variable) at every realize(Position); there is no
         // public convergence flag, so "the solver converged" is taken as: re-solving from its own result no longer moves the length
         bool settled = !anySurface; double Lprev = NAN;
         for (int it = 0; it < 60 && !settled; ++it) {
+            CoutCapture cap;
             system.realize(s, Stage::Position);
             double Lc = path.getCableLength(s);
-            if (std::fabs(Lc - Lprev) <= 1e-13 * Lc) settled = true;
+            if (std::fabs(Lc - Lprev) <= 1e-13 * Lc && cap.converged()) settled = true;
             Lprev = Lc;
-            s.invalidateAllCacheAtOrAbove(Stage::Position);     // the cache entry keeps the last solution: next solve starts from it
+            if (!settled) s.invalidateAllCacheAtOrAbove(Stage::Position);     // the cache entry keeps the last solution: next solve starts from it
         }
         if (!settled) { vh::D(key + ".notConverged"); return 0; }
-        system.realize(s, Stage::Dynamics);
+        { CoutCapture cap; system.realize(s, Stage::Dynamics); }
         double L = path.getCableLength(s), Ldot = path.getCableLengthDot(s);
         if (!std::isfinite(L) || !std::isfinite(Ldot)) { vh::D(key + ".nonfinite"); return 0; }
         const double T = g.range(0.5, 20);
@@ -290,8 +317,11 @@ static int pathCase(vh::Rng& g, bool withSurface) {
         Vec3 Opt = mob[bO].findStationLocationInGround(s, pts.front().second), Tpt = mob[bT].findStationLocationInGround(s, pts.back().second);
         vh::P("length_ge_endpoint_distance", key + ".lenge", (Tpt - Opt).norm() - L, 1e-12 * L);
         { const double h = 1e-5; Vector qd = s.getQDot(); double Lpm[2];
-          for (int sgn = 0; sgn < 2; ++sgn) { State s2 = s; s2.updQ() = s.getQ() + (sgn ? -h : h) * qd; system.realize(s2, Stage::Position); Lpm[sgn] = path.getCableLength(s2); }
-          vh::P("lengthdot_is_derivative", key + ".ldotfd", std::fabs((Lpm[0] - Lpm[1]) / (2 * h) - Ldot), (anySurface ? 1e-4 : 2e-6) * (1 + std::fabs(Ldot)));
+          bool fdok = true;
+          for (int sgn = 0; sgn < 2; ++sgn) { State s2 = s; s2.updQ() = s.getQ() + (sgn ? -h : h) * qd; CoutCapture cap; system.realize(s2, Stage::Position); Lpm[sgn] = path.getCableLength(s2);
+              if (anySurface && !cap.converged()) fdok = false; }
+          if (fdok) vh::P("lengthdot_is_derivative", key + ".ldotfd", std::fabs((Lpm[0] - Lpm[1]) / (2 * h) - Ldot), (anySurface ? 1e-3 : 2e-6) * (1 + std::fabs(Ldot)));
+          else vh::D(key + ".fd.skipped(non-converged neighbour)");
           if (std::getenv("C45_DEBUG") && std::fabs((Lpm[0] - Lpm[1]) / (2 * h) - Ldot) > 1e-4 * (1 + std::fabs(Ldot))) {
               std::printf("# dbg path L=%.12g Ldot=%.12g\n", L, Ldot);
               for (double hh : {1e-3, 1e-4, 1e-5, 1e-6}) { double Lq[2]; for (int sgn = 0; sgn < 2; ++sgn) { State s2 = s; s2.updQ() = s.getQ() + (sgn ? -hh : hh) * qd; system.realize(s2, Stage::Position); Lq[sgn] = path.getCableLength(s2); }
